@@ -1,6 +1,6 @@
 """Predicates on the implementation's catalog JSON, written from the property texts:
 cross-reference invariant (C05) and JDoc Exchange shape (C04)."""
-import re
+import json, re
 
 
 def path_params(path):
@@ -170,6 +170,8 @@ def jdoc_shape(j):
                     schema_shape(i["query"]["schema"], k + "/query", out)
             rq = i.get("request")
             if rq:
+                if "body" in rq and not isinstance(rq["body"], dict):
+                    out.append("interaction %r: the required body of the request is %s" % (k, json.dumps(rq["body"])))
                 if rq.get("body"):
                     if "format" not in rq["body"] or "schema" not in rq["body"]:
                         out.append("interaction %r: request body without format/schema" % k)
@@ -180,6 +182,8 @@ def jdoc_shape(j):
             for r in i.get("responses") or []:
                 if "code" not in r or "body" not in r:
                     out.append("interaction %r: response without code/body" % k)
+                elif not isinstance(r["body"], dict):
+                    out.append("interaction %r: the required body of response %s is %s" % (k, r.get("code"), json.dumps(r["body"])))
                 elif r["body"]:
                     if "format" not in r["body"] or "schema" not in r["body"]:
                         out.append("interaction %r: response body without format/schema" % k)
